@@ -88,6 +88,9 @@ func makeCase(phase string, i int) *copymon.Case {
 	if c.API == "ExtendedCopyGraph" && c.SrcKind != "remote" && i%3 == 0 {
 		c.FilterAll = true // the filter fetches predecessor manifests to learn their artifact type
 	}
+	if c.API == "ExtendedCopyGraph" && c.SrcKind != "remote" && i%3 == 1 {
+		c.FilterAnno = "org.test.salt" // the annotation filter fetches predecessor manifests to learn their annotations
+	}
 	if phase == "single" {
 		c.Conc = []int{1, 3}[i%2]
 	}
@@ -375,7 +378,7 @@ func runCase(phase string, i int) worker.Result {
 				anc = copymon.Ancestors(c.G, c.Root)
 			}
 			n = anc[rng.IntN(len(anc))]
-			if c.FilterAll && !c.SubjectOnly && rng.IntN(2) == 0 {
+			if (c.FilterAll || c.FilterAnno != "") && !c.SubjectOnly && rng.IntN(2) == 0 {
 				op = "src.Fetch" // the filter's own read of a predecessor manifest
 			}
 		}
